@@ -68,7 +68,9 @@ def run_laws(ctx, fs, path, laws, desc, stream, counts):
 def run(ctx):
     if ctx.replay:
         return dwcorr.run_replay(ctx)
-    ctx.prove("ZwVerif.Props.C06", THEOREMS)
+    ctx.prove("ZwVerif.Props.C06", THEOREMS + ["ZwVerif.DieIt." + t for t in
+              ["producer_refines", "range_drain", "cooked_no_import", "cooked_plain", "cookedBelow_of_cooked", "cookedChildren_of_cooked"]],
+              extra_targets=["ZwVerif.Props.C06DieIt"])
     fs = dwcorr.Forests(ctx)
     rng = ctx.rng
     n = 40 if ctx.tier == "quick" else 1200
